@@ -399,6 +399,115 @@ theorem expiry_le_max {s s' : State} {blk : Block} {snd : Addr} {t d : String} {
   simp only [chooseExpiry, Option.getD_none] at hexp
   cases hm : s.cfg.maxVotingPeriod.after blk <;> simp [hm, Expiration.cmp?] at hexp <;> simp [hexp]
 
+/-! ## the observed status only moves forward as time passes -/
+
+theorem isExpired_mono {e : Expiration} {b b' : Block} (hb : blockLe b b') (h : e.isExpired b = true) :
+    e.isExpired b' = true := by
+  obtain ⟨hh, ht⟩ := hb
+  cases e <;> simp [Expiration.isExpired] at h ⊢ <;> omega
+
+/-- The library decision depends on the block only through "has the proposal expired". -/
+theorem cs_congr {t : Tally} {b b' : Block} (h : t.expires.isExpired b = t.expires.isExpired b') :
+    Cw3.currentStatus t b = Cw3.currentStatus t b' := by
+  have h1 : Cw3.isPassed t b = Cw3.isPassed t b' := by simp only [Cw3.isPassed, h]
+  have h2 : Cw3.isRejected t b = Cw3.isRejected t b' := by simp only [Cw3.isRejected, h]
+  simp only [Cw3.currentStatus, h, h1, h2]
+
+/-- Invariant at block `b`: a proposal stored Open and not expired at `b` is reported Open at `b`
+(a vote that decides a proposal early stores the decision at once). -/
+def OpenInv (b : Block) (s : State) : Prop :=
+  ∀ id p, s.core.proposals.get? id = some p → p.status = .open → p.expires.isExpired b = false →
+    p.currentStatus b = .ok .open
+
+theorem openInv_mono {b b2 : Block} {s : State} (hb : blockLe b b2) (h : OpenInv b s) : OpenInv b2 s := by
+  intro id p hp ho hne
+  have hne0 : p.expires.isExpired b = false := by
+    cases he : p.expires.isExpired b with
+    | false => rfl
+    | true => rw [isExpired_mono hb he] at hne; cases hne
+  have := h id p hp ho hne0
+  rw [← this]
+  exact (cs_congr (t := p.tally) (by simp [Proposal.tally, hne, hne0])).symm
+
+theorem open_step {b : Block} {s s' : State} {snd : Addr} {m : ExecMsg} {out : List Msg}
+    (hq : OpenInv b s) (h : execute s b snd m = .ok (s', out)) : OpenInv b s' := by
+  obtain ⟨_, _, hc⟩ := execute_cases h
+  rcases hc with ⟨t, d, msgs, latest, w, id0, _, _, _, hp⟩ | ⟨id0, v, _, _, hv⟩ | ⟨id0, _, he⟩ | ⟨id0, _, _, hcl⟩
+  · obtain ⟨expires, st, _, hst, _, _, hc'⟩ := propose_spec hp
+    intro id p hp' ho hne
+    rw [hc'] at hp'; simp only [AMap.get?_set] at hp'
+    by_cases e : id0 = id
+    · simp only [e, if_true, Option.some.injEq] at hp'; subst hp'
+      simp only at ho; subst ho; exact hst
+    · simp only [e, if_false] at hp'; exact hq id p hp' ho hne
+  · obtain ⟨p0, w, votes, st, hp0, _, _, _, _, _, _, hst, hc'⟩ := vote_spec hv
+    intro id p hp' ho hne
+    rw [hc'] at hp'; simp only [AMap.get?_set] at hp'
+    by_cases e : id0 = id
+    · simp only [e, if_true, Option.some.injEq] at hp'; subst hp'
+      simp only at ho; subst ho
+      have h0 : p0.status = .open := by
+        by_cases h0 : p0.status = .open
+        · exact h0
+        · have : Cw3.currentStatus (Proposal.tally { p0 with votes := votes }) b = .ok p0.status :=
+            cs_of_ne_open (t := Proposal.tally { p0 with votes := votes }) (by simpa [Proposal.tally] using h0)
+          have := hst.symm.trans this; simp at this; exact this.symm
+      simpa [Proposal.currentStatus, Proposal.tally, h0] using hst
+    · simp only [e, if_false] at hp'; exact hq id p hp' ho hne
+  · obtain ⟨p0, hp0, _, _, _, hc'⟩ := execute_spec he
+    intro id p hp' ho hne
+    rw [hc'] at hp'; simp only [AMap.get?_set] at hp'
+    by_cases e : id0 = id
+    · simp only [e, if_true, Option.some.injEq] at hp'; subst hp'; cases ho
+    · simp only [e, if_false] at hp'; exact hq id p hp' ho hne
+  · obtain ⟨p0, _, hp0, _, _, _, _, _, _, hc'⟩ := close_spec hcl
+    intro id p hp' ho hne
+    rw [hc'] at hp'; simp only [AMap.get?_set] at hp'
+    by_cases e : id0 = id
+    · simp only [e, if_true, Option.some.injEq] at hp'; subst hp'; cases ho
+    · simp only [e, if_false] at hp'; exact hq id p hp' ho hne
+
+theorem reachableAt_openInv {fuel : Nat} {w : World} {b : Block} (h : ReachableAt fuel w b) : OpenInv b w.ms := by
+  induction h with
+  | init self bank sink b hi =>
+    intro id p hp
+    simp [instantiate] at hi
+    obtain ⟨_, _, _, _, _, _, rfl⟩ := hi
+    simp [World.init, Core.empty] at hp
+  | @step w b op _ hb ih =>
+    have ih' := openInv_mono hb ih
+    rcases step_ms_cases fuel w op with e | ⟨snd, m, w', _, htx, e⟩
+    · rw [e]; exact ih'
+    · rw [e]; exact tx_state_inv (OpenInv op.blk) op.blk (fun s snd m s' out hq h => open_step hq h) ih' htx
+
+/-- C05 "observed over time each proposal's status only moves Open to Passed to Executed or Open to
+Rejected" — the passage of time: on every history whose blocks never go back, with the state left
+untouched, the status a query reports at a later block is reachable along the forward edges from
+the status reported at an earlier block (both at or after the last operation).  In particular it
+is constant except at expiry, where Open may turn into Passed or Rejected.  (Across operations the
+*stored* status moves along the same edges: `stored_status_edges`.) -/
+theorem observed_status_monotone_in_time {fuel : Nat} {w : World} {b b1 b2 : Block} (hr : ReachableAt fuel w b)
+    (h1 : blockLe b b1) (h2 : blockLe b1 b2) {id : Nat} {p : Proposal} (hp : w.ms.core.proposals.get? id = some p)
+    {st1 st2 : Status} (hq1 : p.currentStatus b1 = .ok st1) (hq2 : p.currentStatus b2 = .ok st2) :
+    edge st1 st2 = true := by
+  by_cases ho : p.status = .open
+  · cases he1 : p.expires.isExpired b1 with
+    | true =>
+      have he2 := isExpired_mono h2 he1
+      have := cs_congr (t := p.tally) (b := b1) (b' := b2) (by simp [Proposal.tally, he1, he2])
+      have e : Except.ok st1 = (Except.ok st2 : Res Status) := by
+        rw [← hq1, ← hq2]; exact this
+      cases e; exact edge_refl _
+    | false =>
+      have hopen := openInv_mono h1 (reachableAt_openInv hr) id p hp ho he1
+      rw [hopen] at hq1; cases hq1
+      have := (cs_edge (t := p.tally) hq2).1
+      simpa [Proposal.tally, ho] using this
+  · have e1 : p.currentStatus b1 = .ok p.status := cs_of_ne_open (t := p.tally) ho
+    have e2 : p.currentStatus b2 = .ok p.status := cs_of_ne_open (t := p.tally) ho
+    rw [e1] at hq1; rw [e2] at hq2
+    cases hq1; cases hq2; exact edge_refl _
+
 /-! ## non-vacuity: a concrete history -/
 
 def exInst : InstMsg :=
